@@ -281,7 +281,7 @@ def cli_conversions(ctx):
 
 
 def main(tier, seed, t0):
-    depth = 2 if tier == "quick" else 3
+    depth = int(os.environ.get("VERIF_DEPTH") or (3 if tier == "quick" else 5))
     ctx = core.Ctx(PROPERTY, tier, seed, level=LEVEL)
     sysm = regsys.RegionSystem()
     jobs = {}
